@@ -157,7 +157,7 @@ OPTS = {'quick': {'time_budget': 60}, 'thorough': {'time_budget': 900}}
 
 META = {
     'explanation': "C10: Table.concat / biom.concat with 2-3 operands on both axes; the first operand in every representation state, the "
-                   "others over other-axis overlap patterns (identical, permuted, partially missing, missing+new, disjoint), with/without metadata; "
+                   "others over other-axis overlap patterns (identical, permuted, partially missing, missing+new, disjoint, zero-length; an operand without any id on the concatenated axis), with/without metadata; "
                    "result compared term-by-term with block placement + zero padding; totals; non-disjoint operand sets must raise DisjointIDError.",
     'encoded': {'biom/table.py': ['concat', 'sort_order', '__init__', 'metadata', 'ids', '_invert_axis'], 'biom/__init__.py': ['concat']},
     'bounds': {'quick': {'operands': 'k=2 (all configs), k=3 (2 configs); 2x2 first operand in all representations, others 2x2 / 1x2 dense'},
